@@ -438,7 +438,7 @@ func (g *gen) next() (string, M) {
 		}
 		return op, M{"caller": c, "cred": cred, "subj": subj, "actor": actor,
 			"requested": g.pick("", "access", "access", "refresh", "id", "jwt", "unknown"),
-			"scopes":    [][]string{{"openid"}, {"openid", "email"}, {"openid", "email", "profile"}}[g.rng.Intn(3)]}
+			"scopes":    [][]string{{"openid"}, {"openid", "email"}, {"openid", "email", "profile"}, {}, {"email"}}[g.rng.Intn(5)]}
 	case "DeviceAuthorize":
 		if g.rng.Intn(4) == 0 {
 			return op, M{"caller": "cn", "cred": g.rightCred("cn"), "scopes": g.scopes()}
@@ -496,7 +496,10 @@ func (g *gen) ref(preferGood bool) M {
 		}
 		decl := "access"
 		if g.rng.Intn(5) == 0 && S(t, "form") == "issued" {
-			decl = g.pick("refresh", "id", "jwt", "unknown")
+			decl = g.pick("refresh", "id", "jwt", "unknown", "absent")
+		}
+		if S(t, "form") == "garbage" && g.rng.Intn(2) == 0 {
+			decl = "absent"
 		}
 		return M{"kind": "access", "form": S(t, "form"), "id": S(t, "id"), "declared": decl}
 	case k < 7:
